@@ -168,15 +168,27 @@ def checker(name):
     return beartype.beartype
 
 
-def build_function(case, order, checker_name, spelling, category="Shaped", array_type=np.ndarray, fname="fn"):
+def position_kinds(n, npo, nko):
+    """Kinds by *position*: the first npo parameters positional-only, the last nko keyword-only."""
+    npo = min(npo, n)
+    nko = min(nko, n - npo)
+    return ["po"] * npo + ["pk"] * (n - npo - nko) + ["ko"] * nko
+
+
+def build_function(case, order, checker_name, spelling, category="Shaped", array_type=np.ndarray, fname="fn", kinds=None):
     """Compile and decorate `def fn(<params in order>) -> R: return __ret`."""
     cat = getattr(jaxtyping, category)
     ns = {"__ret": None}
     parts = []
-    for i in order:
+    kinds = kinds or ["pk"] * len(order)
+    for pos, i in enumerate(order):
         p = case["params"][i]
         ns[f"A_{p['name']}"] = cat[array_type, spec_of(p)]
+        if kinds[pos] == "ko" and (pos == 0 or kinds[pos - 1] != "ko"):
+            parts.append("*")
         parts.append(f"{p['name']}: A_{p['name']}")
+        if kinds[pos] == "po" and (pos + 1 == len(order) or kinds[pos + 1] != "po"):
+            parts.append("/")
     retstr = ""
     if case["ret"] is not None:
         ns["A_ret"] = cat[array_type, spec_of(case["ret"])]
@@ -217,12 +229,22 @@ def build_dataclass(case, order, checker_name, split=None):
     return jaxtyped(typechecker=tc)(D)
 
 
-def call_args(case, order, style, make=lambda shape: np.zeros(shape)):
+def call_args(case, order, style, make=lambda shape: np.zeros(shape), kinds=None):
     ps = [case["params"][i] for i in order]
     vals = [make(tuple(p["shape"])) for p in ps]
-    if style == "pos":
-        return vals, {}
-    if style == "kw":
-        return [], {p["name"]: v for p, v in zip(ps, vals)}
+    kinds = kinds or ["pk"] * len(ps)
     h = (len(ps) + 1) // 2
-    return vals[:h], {p["name"]: v for p, v in zip(ps[h:], vals[h:])}
+    args, kwargs = [], {}
+    for pos, (p, v) in enumerate(zip(ps, vals)):
+        by_kw = {"pos": False, "kw": True}.get(style, pos >= h)
+        if kinds[pos] == "po":
+            by_kw = False
+        elif kinds[pos] == "ko":
+            by_kw = True
+        if by_kw or kwargs:
+            if kinds[pos] == "po":
+                raise AssertionError("positional-only after a keyword argument")
+            kwargs[p["name"]] = v
+        else:
+            args.append(v)
+    return args, kwargs
